@@ -5,7 +5,7 @@
     operations up to the last challenge), 128 (all per-proof transcript operations), 32 (weight transcript operations), 64 (number of weight draws). *)
 From Coq Require Import ZArith NArith List Uint63 Bool.
 From Bignums Require Import BigZ.
-From BP Require Import Base.Field Model.Codec Model.Transcript Model.Verifier Model.VerifyTop Exec.Zl Exec.Limbs.
+From BP Require Import Base.Field Model.Codec Model.Transcript Model.Verifier Model.VerifyTop Model.Checked Model.CheckedTop Exec.Zl Exec.Limbs.
 Import ListNotations.
 
 Record rop := mkRop { ro_kind : N; ro_label : N; ro_len : nat; ro_val : list int }.
@@ -95,7 +95,7 @@ Definition ops_check_chal (complete : bool) (r : rmember) : bool :=
 
 Definition chk_verify (mode_c : N) (rs : list rmember) (draws : list (list int)) (u64s : list N)
     (wops : list rop) (msm_zero : bool)
-    (obs_ok : bool) (obs_masks : list (option (list (list int))))
+    (obs_ok obs_panic : bool) (obs_masks : list (option (list (list int))))
     (obs_static : list (list int)) (groups : list (list nat)) (obs_dyn : list (list int)) : N :=
   let mode := mode_of_code mode_c in
   let ms := map member_of rs in
@@ -123,7 +123,14 @@ Definition chk_verify (mode_c : N) (rs : list rmember) (draws : list (list int))
   let c_stage := if consistent then 0%N
                  else flag (forallb (fun r => match r_ops r with [] => true | _ => false end) rs
                             && match wops with [] => true | _ => false end) 64 in
-  (c_res + c_sc + c_ops + c_w + c_stage)%N.
+  (* the three-valued model (Model/CheckedTop.v): value / error / panic must be the implementation's Ok / Err / panic — also on statements
+     written through their public fields, where the back end's length assertions do fire *)
+  let c_tri := match verify_chunk_chk Kl k_of_N mode ms ws msm_zero with
+               | Val _ => flag (obs_ok && negb obs_panic) 1024
+               | Fail => flag (negb obs_ok && negb obs_panic) 1024
+               | Panic => flag obs_panic 1024
+               end in
+  (c_res + c_sc + c_ops + c_w + c_stage + c_tri)%N.
 
 (** chunking of a batch (Model/VerifyTop.v [chunks_of] with [MAX_BATCH]): the sizes of the chunks the
     implementation went through (one weight transcript per chunk, one absorbed value per member), for an
